@@ -131,6 +131,9 @@ func registerHarnessAPI(e *Engine) {
 				pn := h.Name
 				if name != "L0" && hk != "L0."+h.Name {
 					pn = h.Name + strings.ToLower(name)
+					if h.Class == "N" {
+						pn = h.Name + strings.TrimLeft(name, "L")
+					}
 				}
 				if pv, ok := preferredValue(h.Class, pn); ok {
 					m.prefs[t] = pv
@@ -378,19 +381,38 @@ func checkModelStage(solver *Solver, e *Engine, fresh map[*Term]bool, prefs map[
 		pq = append(pq, TEq(v, TStr(val)))
 	}
 	sort.Slice(pq, func(i, j int) bool { return pq[i].id < pq[j].id })
+	// numeric holes hold JSON number literals (decoder contract)
+	for v, val := range prefs {
+		if isJSONNumber(val) {
+			q2 = append(q2, TInRe(v, `(re.++ (re.opt (str.to_re "-")) (re.union (str.to_re "0") (re.++ (re.range "1" "9") (re.* (re.range "0" "9")))) (re.opt (re.++ (str.to_re ".") (re.+ (re.range "0" "9")))))`))
+		}
+	}
 	if len(pq) > 0 {
 		if r, mod := solver.Check(append(append([]*Term{}, q2...), pq...), true); r == Sat && mod != nil {
 			mod.UF = e.evalUF
 			return r, mod
 		}
-		// greedy: keep the preferences that are individually consistent
+		// keep a maximal consistent subset of the preferences (recursive halving)
 		acc := append([]*Term{}, q2...)
-		if len(pq) <= 8 {
-			for _, p := range pq {
-				if r, _ := solver.Check(append(append([]*Term{}, acc...), p), false); r == Sat {
-					acc = append(acc, p)
-				}
+		budget := 24
+		var keep func(ps []*Term)
+		keep = func(ps []*Term) {
+			if len(ps) == 0 || budget <= 0 {
+				return
 			}
+			budget--
+			if r, _ := solver.Check(append(append([]*Term{}, acc...), ps...), false); r == Sat {
+				acc = append(acc, ps...)
+				return
+			}
+			if len(ps) == 1 {
+				return
+			}
+			keep(ps[:len(ps)/2])
+			keep(ps[len(ps)/2:])
+		}
+		keep(pq)
+		if len(acc) > len(q2) {
 			if r, mod := solver.Check(acc, true); r == Sat && mod != nil {
 				mod.UF = e.evalUF
 				return r, mod
